@@ -163,7 +163,16 @@ func c18paths(c *Ctx) {
 			slog.AddFlags(slog.Lcaller)
 			f := Format(r.Intn(3))
 			lg := newRoot("p18", f, w, slog.AlwaysLevel)
-			evs := capture(log, func() { lg.Info("caller-path-probe") })
+			site := func() { lg.Info("caller-path-probe") } // ONE call site, used several times
+			if r.Bool() {
+				// first from inside a window in which the privacy flag is temporarily off (SaveFlagsAndMod and its
+				// restore closure), then - flag restored - from the same statement again
+				restoreWindow := slog.SaveFlagsAndMod(slog.Lempty, slog.Lprivacypath)
+				_ = capture(log, site)
+				restoreWindow()
+				c.R.Add("caller_fields_checked_after_a_flag_window", 1)
+			}
+			evs := capture(log, site)
 			slog.RemoveKnownPathMapping(srcDir)
 			if len(evs) == 1 {
 				if d, err := decodeRecord(f, evs[0].Data, true, true); err == nil {
